@@ -83,7 +83,7 @@ func (c *scriptConn) SetDeadline(t time.Time) error      { return nil }
 func (c *scriptConn) SetReadDeadline(t time.Time) error  { return nil }
 func (c *scriptConn) SetWriteDeadline(t time.Time) error { return nil }
 
-func be32(n uint32) []byte { return []byte{byte(n >> 24), byte(n >> 16), byte(n >> 8), byte(n)} }
+func stBE32(n uint32) []byte { return []byte{byte(n >> 24), byte(n >> 16), byte(n >> 8), byte(n)} }
 
 func (stComp) Gen(r *vh.RNG, n int, emit func(op string, tags ...string)) {
 	sizes := []uint32{0, 1, 2, 3, 7, 255, 256, 1000, 0, 1, 5, 300, 65535, 65536, 65537, 70000}
@@ -93,7 +93,7 @@ func (stComp) Gen(r *vh.RNG, n int, emit func(op string, tags ...string)) {
 		switch {
 		case k < 25: // download request (sizes kept ≤ 200000 so a run stays fast), maybe trailing junk
 			l := sizes[r.Intn(len(sizes))]
-			b := append([]byte{1}, be32(l)...)
+			b := append([]byte{1}, stBE32(l)...)
 			b = append(b, r.Bytes(r.Intn(6))...)
 			emit("srv "+eofFlag+" "+vh.Chunks(r.Chunk(b)), "download")
 		case k < 55: // upload with exactly / fewer / more bytes than announced
@@ -108,7 +108,7 @@ func (stComp) Gen(r *vh.RNG, n int, emit func(op string, tags ...string)) {
 			case 1:
 				have = int(l) + r.Intn(9)
 			}
-			b := append([]byte{2}, be32(l)...)
+			b := append([]byte{2}, stBE32(l)...)
 			b = append(b, make([]byte, have)...)
 			var cs [][]byte
 			if r.Bool() {
